@@ -1,13 +1,13 @@
 package checks
 
 import (
-	"context"
 	"fmt"
 	"math"
 	"math/rand"
 	"runtime"
 	"strings"
 	"sync"
+	"sync/atomic"
 
 	"github.com/blugelabs/bluge"
 	"github.com/blugelabs/bluge/search"
@@ -290,17 +290,19 @@ func bits(v uint64) int {
 	return n
 }
 
+// searches aborted by the step counter (C10's known enumeration blow-up), counted for the evidence
+var stepLimitHits atomic.Int64
+
 func scoresOf(rd *bluge.Reader, q bluge.Query, explain bool) (map[string]float64, map[string]*search.Explanation, error) {
 	req := bluge.NewAllMatches(q)
 	if explain {
 		req.ExplainScores()
 	}
-	it, err := rd.Search(context.Background(), req)
+	hits, _, err := bx.SafeCollect(rd, req, false)
 	if err != nil {
-		return nil, nil, err
-	}
-	hits, err := bx.Collect(it, false)
-	if err != nil {
+		if err == bx.ErrStepLimit {
+			stepLimitHits.Add(1)
+		}
 		return nil, nil, err
 	}
 	sc := map[string]float64{}
@@ -600,6 +602,7 @@ func runC17(c *vk.Ctx) {
 		}(w)
 	}
 	wg.Wait()
+	c.Event("searches_aborted_by_step_limit_see_C10", int(stepLimitHits.Load()))
 	c.Require("metamorphic_corpora", 50)
 	c.Require("explained_hits", 200)
 	c.Require("compound_sums_checked", 50)
